@@ -367,6 +367,15 @@ def mismatch_cases(tier):
                   None, None, v))
         L.append(("checker-match-client-%s" % S.VNAME[v], "checker-C-ok",
                   None, None, v))
+    # a client that merely *names* an SRP user in its hello while an
+    # ordinary certificate / anonymous handshake takes place: no password
+    # proof, so no user name may be attributed
+    for v in ((3, 1), (3, 3), (3, 4)):
+        for fl in ("cert", "anon"):
+            if fl == "anon" and v == (3, 4):
+                continue
+            L.append(("srp-name-only-%s-%s" % (fl, S.VNAME[v]),
+                      "srp-name-only", fl, None, v))
     for v in ((3, 3), (3, 4)):
         for role in ("server", "client"):
             L.append(("scheme-not-offered-%s-%s" % (role, S.VNAME[v]),
@@ -414,6 +423,32 @@ def mismatch_case(item):
         pair, pup, out = r
         sig = (kind, out[victim].sig()[:3])
         fails = judge(pair, out, victim, "chain %s with key %s" % (a, b))
+    elif kind == "srp-name-only":
+        from tlslite.messages import ClientHello
+        from tlslite.utils.codec import Parser
+        if a == "anon":
+            sc = S.Scen("c05/" + name, version=v, flavour="anon",
+                        suite=CS.TLS_DH_ANON_WITH_AES_128_CBC_SHA)
+        else:
+            sc = S.Scen("c05/" + name, version=v, cred="rsa")
+
+        def add_name(d):
+            ch = ClientHello().parse(Parser(bytearray(d[1:])))
+            ch.srp_username = bytearray(b"alice")
+            return bytes(ch.write())
+        r = run_one(sc, seed, "S", {0: ("mutate", add_name)})
+        if r is None:
+            return name, None, []
+        pair, pup, out = r
+        sig = (kind, out["S"].sig()[:3])
+        if out["S"].status == "ok":
+            got = pair.s.session.srpUsername
+            if got:
+                fails.append("server completed a %s handshake and recorded "
+                             "SRP user %r although no SRP exchange took "
+                             "place" % (a, got))
+        # resumption of that session must not attribute it either
+        return name, sig, fails
     elif kind == "srp":
         sc = S.Scen("c05/" + name, version=v, flavour="srp", cred=None,
                     suite=CS.TLS_SRP_SHA_WITH_AES_128_CBC_SHA)
